@@ -30,6 +30,7 @@ import (
 %token LABEL LEFT_ARROW RIGHT_ARROW UP_ARROW DOWN_ARROW  EQUALS DOT SEQUENCE COLON COMMA LPAREN RPAREN LSBRACK RSBRACK LANGLE RANGLE PIPE SEND RECEIVE CASE CLOSE WAIT CAST SHIFT ACCEPT ACQUIRE DETACH RELEASE DROP SPLIT PUSH NEW SNEW TYPE LET IN END SPRC PRC FORWARD SELF PRINT PLUS MINUS TIMES AMPERSAND UNIT LCBRACK RCBRACK LOLLI PERCENTAGE ASSUMING EXEC
 %type <strval> LABEL
 %type <statements> statements 
+%type <common_type> statement
 %type <common_type> process_def
 %type <common_type> function_def
 %type <common_type> type_def
@@ -71,16 +72,15 @@ program :
 /*	 | LET functions IN processes END { }; */
 
 /* A program may consist a combination of processes, function definitions and types */
-statements : process_def             { $$ = []unexpandedProcessOrFunction{$1} }
-		   | process_def statements  { $$ = append([]unexpandedProcessOrFunction{$1}, $2...) }
-		   | function_def            { $$ = []unexpandedProcessOrFunction{$1} }
-		   | function_def statements { $$ = append([]unexpandedProcessOrFunction{$1}, $2...) }
-		   | type_def 				 { $$ = []unexpandedProcessOrFunction{$1} }
-		   | type_def statements 	 { $$ = append([]unexpandedProcessOrFunction{$1}, $2...) }
-		   | assuming_def 			 { $$ = []unexpandedProcessOrFunction{$1} }
-		   | assuming_def statements { $$ = append([]unexpandedProcessOrFunction{$1}, $2...) }
-		   | exec_def 			 	 { $$ = []unexpandedProcessOrFunction{$1} }
-		   | exec_def statements 	 { $$ = append([]unexpandedProcessOrFunction{$1}, $2...) };
+/* (left recursive: the list grows by one element per statement; a right-recursive rule keeps every statement on the parser stack and rebuilds the list for each of them) */
+statements : statement             { $$ = []unexpandedProcessOrFunction{$1} }
+		   | statements statement  { $$ = append($1, $2) };
+
+statement : process_def   { $$ = $1 }
+		  | function_def  { $$ = $1 }
+		  | type_def      { $$ = $1 }
+		  | assuming_def  { $$ = $1 }
+		  | exec_def      { $$ = $1 };
 
 /* A process is defined using the prc keyword */
 process_def : 
